@@ -84,6 +84,10 @@ func (p *implReplayer) peekTask(ev string) string {
 		p.err = "driver: " + err.Error()
 		return "-"
 	}
+	p.last = append(p.last, "impl? "+ev+" -> "+a)
+	if len(p.last) > 8 {
+		p.last = p.last[1:]
+	}
 	if i := strings.LastIndex(a, " | task="); i >= 0 {
 		return a[i+len(" | task="):]
 	}
@@ -109,6 +113,26 @@ func lastAnswerFor(id *ids, log []entry, from, to int, h uint64) string {
 		}
 	}
 	return "-"
+}
+
+// answersFor: every answer to a request for height h in log[from:to], newest first ("-" = an error)
+func answersFor(id *ids, log []entry, from, to int, h uint64) []string {
+	var out []string
+	seen := map[string]bool{}
+	for i := to - 1; i >= from && i >= 0; i-- {
+		e := log[i]
+		t := ""
+		if e.Req == h && e.Kind == eServed {
+			t = tokenOf(id, e)
+		} else if e.Req == h && e.Kind == eServeErr {
+			t = "-"
+		}
+		if t != "" && !seen[t] {
+			seen[t] = true
+			out = append(out, t)
+		}
+	}
+	return out
 }
 
 // implReplay returns "" when the machine reproduced the run, else a description of the first
@@ -224,10 +248,15 @@ func implReplay(drv *lib.Driver, id *ids, sc Scenario, out *outcome, pre []*lib.
 						continue
 					}
 					tried++
+					// the confirming fetch: an answer for that height given after the header — the one that
+					// carries the announced block if there is one (a later request for the same height, e.g.
+					// revertTask's, may have been answered from another chain), else the last
 					conf := "-"
+					exact := false
 					for j := i + 1; j < li; j++ {
-						if log[j].Kind == eServed && log[j].Req == l.Num {
-							conf = tokenOf(id, log[j])
+						if c := log[j]; c.Kind == eServed && c.Req == l.Num && !exact {
+							conf = tokenOf(id, c)
+							exact = c.Sane && c.Num == l.Num && c.Hash.Equal(&l.Hash)
 						}
 					}
 					ev := fmt.Sprintf("reorg %d %d %d %s", head.num+1, l.Num, id.of(&l.Hash), conf)
@@ -249,10 +278,31 @@ func implReplay(drv *lib.Driver, id *ids, sc Scenario, out *outcome, pre []*lib.
 					}
 				}
 				if !started && p.err == "" {
-					return fmt.Sprintf("block %d was reverted, but no answer in the log makes the machine start a revert task", e.Num), p.n, hits
+					return fmt.Sprintf("block %d was reverted, but no answer in the log makes the machine start a revert task; last events: %s", e.Num, strings.Join(p.last, " || ")), p.n, hits
 				}
 			}
 			ans := lastAnswerFor(id, log, lastCommit, li, e.Num)
+			if cands := answersFor(id, log, lastCommit, li, e.Num); len(cands) > 1 {
+				// several requests for this height were answered since the last commit (a fetcher of the old
+				// streams is still running next to the revert task): take the newest answer with which the
+				// machine does what was observed — this revert, and going on if the next commit is a revert too
+				goesOn := false
+				for j := li + 1; j < len(log); j++ {
+					if k := log[j].Kind; k == eStored || k == eRestart || k == eJump {
+						break
+					} else if k == eReverted || (k == eOnReorg && failedRevert[j]) {
+						goesOn = true
+						break
+					}
+				}
+				for _, c := range cands {
+					if p.peek("iter "+c+" "+okFlag) == want && (!goesOn || p.peekTask("iter "+c+" "+okFlag) != "-") {
+						ans = c
+						hits["impl:answer-chosen-among-several"]++
+						break
+					}
+				}
+			}
 			obs := p.ask("impl iter " + ans + " " + okFlag)
 			if failed {
 				hits["impl:iter-revert-failed"]++
